@@ -531,7 +531,7 @@ def has(t, kinds):
 
 def run_c19(tier, seed, replay=None):
     res = core.Result("C19", tier, seed)
-    obligations, closed, log = core.coq_property("C19", ["C19_escape_table", "C19_hex_forms", "C19_possessive_is_atomic", "C19_possessive_is_atomic_swap_greed", "C19_comment_skipped"])
+    obligations, closed, log = core.coq_property("C19", ["C19_escape_table", "C19_hex_forms", "C19_possessive_is_atomic", "C19_possessive_is_atomic_swap_greed", "C19_comment_skipped", "C19_whitespace_skipped", "C19_whitespace_kept", "C19_line_comment_skipped", "C19_line_comment_to_end", "C19_first_newline"])
     proof_ok = all([res.oblige(n, ok) for n, ok in obligations])
     core.build_ocaml()
     core.build_harness()
